@@ -80,20 +80,20 @@ theorem le_maxOr1 {a : Nat} {l : List Nat} (h : a ∈ l) : a ≤ maxOr1 l := by
 
 -- ---------------------------------------------------------------- voices / staves in use
 
-theorem voice_mem_uVoices {p : APart} {e : Elem} {v : Nat} (he : e ∈ p.elems) (hg : isGeneric e.cls = true)
+theorem voice_mem_uVoices {p : APart} {e : Elem} {v : Nat} (he : e ∈ allElems p) (hg : isGeneric e.cls = true)
     (hv : e.voice = some v) : v ∈ uVoices p := by
   rw [uVoices, mem_uniq, voicesOf, List.mem_filterMap]
   exact ⟨e, he, by simp [hg, hv]⟩
 
-theorem staff_mem_uStaves {p : APart} {e : Elem} (he : e ∈ p.elems) (hs : withStaff e.cls = true) :
+theorem staff_mem_uStaves {p : APart} {e : Elem} (he : e ∈ allElems p) (hs : withStaff e.cls = true) :
     e.staff.getD 1 ∈ uStaves p := by
   rw [uStaves, mem_uniq, stavesOf, List.mem_map]
   exact ⟨e, List.mem_filter.mpr ⟨he, by simpa using hs⟩, rfl⟩
 
-theorem voice_le_maxVoice {p : APart} {e : Elem} {v : Nat} (he : e ∈ p.elems) (hg : isGeneric e.cls = true)
+theorem voice_le_maxVoice {p : APart} {e : Elem} {v : Nat} (he : e ∈ allElems p) (hg : isGeneric e.cls = true)
     (hv : e.voice = some v) : v ≤ maxVoice p := le_maxOr1 (voice_mem_uVoices he hg hv)
 
-theorem staff_le_maxStaff {p : APart} {e : Elem} (he : e ∈ p.elems) (hs : withStaff e.cls = true) :
+theorem staff_le_maxStaff {p : APart} {e : Elem} (he : e ∈ allElems p) (hs : withStaff e.cls = true) :
     e.staff.getD 1 ≤ maxStaff p := le_maxOr1 (staff_mem_uStaves he hs)
 
 /-- 1-based position among the unique values: between 1 and their number -/
